@@ -653,6 +653,9 @@ func (c *CFG) ErrSource(b *cfg.Block, errObj types.Object) *ast.CallExpr {
 		for i := len(b.Nodes) - 1; i >= 0; i-- {
 			switch s := b.Nodes[i].(type) {
 			case *ast.AssignStmt:
+				if inlinedAssign[s] {
+					continue // the helper's returns are the assignments
+				}
 				for li, l := range s.Lhs {
 					if IsObj(info, l, errObj) {
 						var rhs ast.Expr
@@ -662,7 +665,7 @@ func (c *CFG) ErrSource(b *cfg.Block, errObj types.Object) *ast.CallExpr {
 							rhs = s.Rhs[li]
 						}
 						call, _ := Unparen(rhs).(*ast.CallExpr)
-						return call
+						return tailCallOf(info, call)
 					}
 				}
 			case *ast.ValueSpec:
@@ -1092,4 +1095,32 @@ func (c *CFG) FirstLocIn(n ast.Node) Loc {
 		return true
 	})
 	return out
+}
+
+// tailCallOf sees through a helper read in place whose one return statement hands back the
+// result of a single call (`func h(...) error { return x.f(...) }`): the error of h(...) is
+// the error of x.f(...).
+func tailCallOf(info *types.Info, call *ast.CallExpr) *ast.CallExpr {
+	for i := 0; i < 3 && call != nil && theProg != nil; i++ {
+		h := theProg.byName[CalleeName(info, call)]
+		if h == nil || h.Adopter == nil || h.Decl == nil {
+			return call
+		}
+		var rets []*ast.ReturnStmt
+		walkOwn(h.Body, func(n ast.Node) bool {
+			if r, ok := n.(*ast.ReturnStmt); ok {
+				rets = append(rets, r)
+			}
+			return true
+		})
+		if len(rets) != 1 || len(rets[0].Results) != 1 {
+			return call
+		}
+		inner, ok := Unparen(rets[0].Results[0]).(*ast.CallExpr)
+		if !ok {
+			return call
+		}
+		call = inner
+	}
+	return call
 }
